@@ -9,7 +9,7 @@ ENV = "export GOFLAGS=-mod=mod GOPROXY=off GOSUMDB=off GOTOOLCHAIN=local"
 CHECKS = {
  "C01": ("online reference-model monitor (lockstep abstract map) over order-family workloads on all 8 key-value containers",
          "Exploration: every Put/Remove/Clear/Get of each generated history runs on the real container and on an abstract map (identity- or comparator-class-keyed); Get of touched + probe keys, Size, Empty after every call, Keys/Values exactly-once and alignment on every call while n<=64; remove-absent compares snapshots. Holds on the executed histories only.",
-         "Trusts the abstract-map model (kvmodel.go) and Go's runtime; keys int, string, struct and (ordered containers) float64 incl. NaN; values int; comparators natural/reversed/coarsened/un-normalised, and the built-in order of the New constructors.",
+         "Trusts the abstract-map model (kvmodel.go) and Go's runtime; keys int (small alphabets and ints from the whole range: negatives, extremes, pairs more than MaxInt apart), string, struct (with Equal/Compare/Less/IsZero methods that disagree with == and the comparators) and (ordered containers) float64 incl. NaN; values int; comparators natural/reversed/coarsened/un-normalised, and the built-in order of the New constructors.",
          "DESIGN.md §4 C01"),
  "C02": ("online monitor: sortedness, iterator walk, extremes and exhaustive Floor/Ceiling probing against a sorted model",
          "Exploration: after every call of C01-style histories on the six comparator-ordered containers, enumeration order, all extreme accessors and Floor/Ceiling for present, absent, between-neighbour and out-of-range probes are compared with the sorted model. Holds on the executed histories and probes only.",
@@ -17,11 +17,11 @@ CHECKS = {
          "DESIGN.md §4 C02"),
  "C03": ("online reference-model monitor (lockstep abstract sequence) over hostile randomized + swept list histories",
          "Exploration: every call of each generated history is made on the real ArrayList, SinglyLinkedList and DoublyLinkedList and on a Go-slice model; Values/Get/IndexOf/Contains/Size/Empty are compared after each call. Holds on the executed histories only (counts in the evidence file).",
-         "Trusts the 60-line slice model and Go's runtime; element types int and string; Sort tie order is not constrained.",
+         "Trusts the 60-line slice model and Go's runtime; element types int (also from the whole range of the type), string, struct and pointers; Sort tie order is not constrained.",
          "DESIGN.md §4 C03"),
  "C04": ("online reference-model monitor (lockstep abstract set) over variadic Add/Remove/Contains histories",
          "Exploration: after every Add/Remove/Clear on HashSet, LinkedHashSet and TreeSet, Contains over the whole alphabet, Contains(list), Size, Empty and Values (each member exactly once) are compared with a model set. Holds on the executed histories only.",
-         "Trusts the model set; element types int, string, struct and (TreeSet) float64 incl. NaN; TreeSet comparators natural/reversed/coarsened/un-normalised and the built-in order of New.",
+         "Trusts the model set; element types int (also from the whole range of the type), string, struct (with methods that disagree with ==) and float64 incl. NaN; TreeSet comparators natural/reversed/coarsened/un-normalised and the built-in order of New.",
          "DESIGN.md §4 C04"),
  "C05": ("online reference-model monitor (LIFO/FIFO/bounded FIFO with unique items) incl. a sweep of every ring (capacity, offset, fill) state",
          "Exploration: every Push/Pop/Peek/Enqueue/Dequeue/Clear return value and Values/Size/Empty/Full after every call are compared with a slice model; the ring sweep visits every (capacity<=17, start offset, fill) state and samples larger capacities. Holds on the executed histories only.",
@@ -41,7 +41,7 @@ CHECKS = {
          "DESIGN.md §4 C08"),
  "C09": ("online reference-model monitor (insertion-order list) incl. Each callback log and ToJSON token order",
          "Exploration: after every Put/Add/Remove/Clear on LinkedHashMap and LinkedHashSet, Keys, Values, iterator walk, Each order and ToJSON order are compared with the model order. Holds on the executed histories only.",
-         "Trusts the slice+map model; int, string and float keys (every NaN a key of its own).",
+         "Trusts the slice+map model; int, string, float keys (every NaN a key of its own) and struct keys carrying Equal/Compare/Less/IsZero/Hash methods that disagree with ==.",
          "DESIGN.md §4 C09"),
  "C10": ("online reference-model monitor (pair of inverse maps), every key and value probed in both directions after every call; loads of foreign JSON documents with colliding members are steps of the histories",
          "Exploration: HashBidiMap and TreeBidiMap over 4-6 keys x 4-6 values so all collision kinds occur constantly; Get/GetKey for the whole alphabets, inverse consistency on the implementation's own answers, Size=len(Keys)=len(Values), no duplicate/stale value. Holds on the executed histories only.",
@@ -49,7 +49,7 @@ CHECKS = {
          "DESIGN.md §4 C10"),
  "C11": ("online round-trip monitor: ToJSON validity/shape/json.Marshal equality, reload into fresh containers through three loaders, observer equivalence, lockstep drain/continuation",
          "Exploration: all 21 containers in never-used, cleared and history-reached states (wrapped rings, all comparators, int/string keys, values equal to key text); output of ToJSON is loaded by FromJSON, json.Unmarshal and UnmarshalJSON into fresh containers of the same configuration which must be equivalent in every observer and drain/continue identically. Holds on the executed states only.",
-         "Trusts encoding/json as the judge of validity; elements are ints and valid-UTF-8 strings.",
+         "Trusts encoding/json as the judge of validity; elements/keys are ints, valid-UTF-8 strings, a defined string type, JSON structs, pointer-receiver JSON types, and `any` holding float64/string/bool/nil.",
          "DESIGN.md §4 C11"),
  "C12": ("online monitor over (prior state x hostile input) pairs: before/after snapshots on error, harness-side denotation on success, lockstep continuation against a container built through the ordinary API",
          "Exploration: 21 containers x prior states (empty, small, big, full ring) x ten input families (well-formed, element-level type errors at first/middle/last, literal corpus, truncations, byte mutations, random bytes, deep nesting, trailing garbage, other states' output) through three loaders. Error => all observers equal the snapshot; success => equivalent to a fresh container filled with the decoded denotation, also over 20-60 further identical calls. Holds on the executed pairs only.",
